@@ -62,8 +62,12 @@ int g_pushed, g_polls, g_arrived;
    that the pointer is assigned, not assumed. */
 static inline void verif_rd_th(volatile void * p) {
   if (p != (volatile void *)&U.th) return;
+#ifdef SPIN_ANY   /* job c08.signal.any_polls: no budget -- the waiter arrives whenever it likes (loop under contract) */
+  if (U.th == 0 && nondet_bool()) { U.th = &TH0; g_arrived = 1; }
+#else
   if (g_polls < SPIN_K) g_polls++;
   if (U.th == 0 && (nondet_bool() || g_polls >= SPIN_K)) { U.th = &TH0; g_arrived = 1; }
+#endif
 }
 void push_contract(myth_thread_queue_t q, myth_thread_t th)
   __CPROVER_requires(q == &ENVS2[g_worker_rank].runnable_q && th == &TH0 && g_pushed == 0 && "signal hands exactly the waiter over, once, on the run queue of the worker the signaller is running on NOW")
